@@ -646,8 +646,11 @@ def run_real(spec):
             # in a callback of another channel - every item written before the exit is still delivered, then the end
             hold = gw.newchannel()
             hold.setcallback(lambda item: time.sleep(0.8))
+            # (small last words fit into the connection's buffers and are all written when the worker goes; big ones are still
+            # being written while this side starts to read again)
+            lw_size = 7000 if run % 4 >= 2 or spec["spec"] == "socket" else 10
             lw = gw.remote_exec("import os\nside = channel.receive()\nside.send('hold the receiver')\n"
-                                "for i in range(200):\n    channel.send(('last words', i, b'w' * (7000 if i % 2 else 10)))\n" + ("os._exit(0)\n" if run % 2 else ""))
+                                "for i in range(200):\n    channel.send(('last words', i, b'w' * (%d if i %% 2 else 10)))\n" % lw_size + ("os._exit(0)\n" if run % 2 else ""))
             lw.send(hold)
             if run % 2 == 0:
                 time.sleep(0.1)
@@ -661,7 +664,7 @@ def run_real(spec):
             except BaseException as e:  # noqa
                 words.append(f"{type(e).__name__}: {e}")
             res.count("last_words_runs")
-            if words != [("last words", i, b"w" * (7000 if i % 2 else 10)) for i in range(200)]:
+            if words != [("last words", i, b"w" * (lw_size if i % 2 else 10)) for i in range(200)]:
                 res.violation(f"items-written-before-the-peer-was-gone-lost:{spec['spec']}",
                               f"{label}: {len(words)} of 200 items arrived ({'worker called os._exit' if run % 2 else 'gateway told to exit'} while the receiver thread was busy); tail {short([w[:2] if isinstance(w, tuple) else w for w in words[-2:]], 120)}")
             res.count("runs")
